@@ -7,6 +7,7 @@ import (
 	"net/url"
 	"time"
 
+	"github.com/rs/xid"
 	"github.com/rs/zerolog"
 	"github.com/rs/zerolog/internal/zzverif"
 )
@@ -181,4 +182,43 @@ func VH_C18_overlap() {
 		zzverif.Assert(has(la, `"ua":"agentA"`) && has(lb, `"ua":"agentB"`), "overlap: each event carries its own user agent")
 	}
 	zzverif.Reach("C18/overlap")
+}
+
+// Request id: every request's events carry that request's id, whether RequestIDHandler created
+// it or found it in the request context (CtxWithID by upstream code, or an outer
+// RequestIDHandler that only sets the header), and the response header names the same id.
+func VH_C18_request_id() {
+	out := &vLines{}
+	base := zerolog.New(out)
+	var seen xid.ID
+	var seenOK bool
+	final := http.HandlerFunc(func(w http.ResponseWriter, r *http.Request) {
+		seen, seenOK = IDFromRequest(r)
+		FromRequest(r).Info().Msg("served")
+	})
+	preset := xid.ID{1, 2, 3, 4, 5, 6, 7, 8, 9, 10, 11, 12}
+	mode := zzverif.Choice(3)
+	var chain http.Handler
+	switch mode {
+	case 0, 1: // one handler writing field and header; mode 1: the id is already in the context
+		chain = NewHandler(base)(RequestIDHandler("id", "X-Request-Id")(final))
+	case 2: // outer handler sets the header only, inner one logs the field only
+		chain = NewHandler(base)(RequestIDHandler("", "X-Request-Id")(RequestIDHandler("id", "")(final)))
+	}
+	w := &vRW{h: http.Header{}}
+	r := vReq{method: "GET", remote: "10.0.0.1:1111", host: "a.example:80", proto: "HTTP/1.1", path: "/a"}.build()
+	if mode == 1 {
+		r = r.WithContext(CtxWithID(r.Context(), preset))
+	}
+	chain.ServeHTTP(w, r)
+	zzverif.Assert(seenOK, "the request's id is available to the handlers below RequestIDHandler")
+	if mode == 1 {
+		zzverif.Assert(seen == preset, "an id already in the request context is kept")
+	}
+	zzverif.Assert(len(out.lines) == 1, "one event per request")
+	want := `"id":"` + seen.String() + `"`
+	zzverif.Assert(zzverif.ContainsBytes(out.lines[0], []byte(want)), "the request's event carries the request's id")
+	hv := w.h["X-Request-Id"]
+	zzverif.Assert(len(hv) == 1 && hv[0] == seen.String(), "the response header carries the request's id")
+	zzverif.Reach("C18/request-id")
 }
